@@ -873,7 +873,14 @@ def check_module(mod, tree):
             if members != ENUMS[n.name]:
                 raise Unsupported(f"{mod}.{n.name}: members {members} differ from the documented {ENUMS[n.name]}")
             continue
+        if isinstance(n, ast.ClassDef) and n.name not in ENUMS and pynorm_inert_class(n):
+            continue                                     # a further class no translated function can reach (its name would be refused)
         raise Unsupported(f"{mod}: module-level statement `{ast.unparse(n)[:60]}`")
+
+
+def pynorm_inert_class(n):
+    import pynorm
+    return pynorm.inert_class(n)
 
 
 def translate_function(mod, name, fns):
@@ -958,6 +965,7 @@ def translate(repo):
         bind_problem = None
         try:
             pynorm.check_package(repo)
+            trees[mod] = pynorm.housekeeping(trees[mod], mod)   # inert statements dropped, annotations of unchanged signatures restored
             pynorm.check_bindings(trees[mod])            # every name the translator reads by its spelling means what it says
         except pynorm.Binding as e:
             bind_problem = f"{mod}: {e}"
